@@ -42,7 +42,7 @@ func genI32(r *hx.Rng) int32 {
 }
 
 func runFlowOps(c *hx.Ctx) {
-	n := c.N(1500, 40000)
+	n := c.N(1500, 30000)
 	for k := 0; k < n; k++ {
 		withConn := c.Rng.Intn(4) != 0
 		f := mh2.VerifNewFlow(withConn)
@@ -533,12 +533,15 @@ func runScript(c *hx.Ctx, side string, evs []peerEv) (string, string) {
 			}
 			return true
 		}
+		// a sound sender never makes us wait the full delay; once timeouts have been seen (an implementation that
+		// under-sends) the delay drops so that a violation search stays fast
 		d := 3 * time.Second
-		if slow {
-			d = 40 * time.Millisecond
+		if slow || syncTimeouts >= 3 {
+			d = 60 * time.Millisecond
 		}
 		if !w.waitFor(d, func() bool { return w.total >= target && wantEnds() }) {
 			slow = true
+			syncTimeouts++
 			c.Count("peer.sync-timeout")
 		}
 		frames := w.cut()
@@ -617,6 +620,8 @@ func runScript(c *hx.Ctx, side string, evs []peerEv) (string, string) {
 	}
 	return strings.Join(done, ","), strings.Join(obs, ",") + " " + xok
 }
+
+var syncTimeouts int
 
 var initWindows = []uint32{0, 1, 16383, 65535, maxI32}
 var frameSizes = []uint32{16384, 16385, 32768, 65536, 1<<24 - 1}
@@ -713,7 +718,7 @@ func runPeer(c *hx.Ctx) {
 			}
 		}
 	}
-	n := c.N(260, 2500)
+	n := c.N(260, 1500)
 	for k := 0; k < n; k++ {
 		side := "client"
 		if k%2 == 1 {
